@@ -223,22 +223,23 @@ MustFail(p) ==
 (* Reading.                                                                 *)
 UnitOf(tick) == (tick - HdrT) \div T
 
-\* the stream of write w is complete in memory at its place
-StreamAt(w) == \A k \in 1..info[w].len : mem[info[w].off + k - 1] = <<w, k>>
+\* the stream of write w is complete at its place in memory m (inf = the write records)
+StreamAtM(m, inf, w) == \A k \in 1..inf[w].len : m[inf[w].off + k - 1] = <<w, k>>
+StreamAt(w) == StreamAtM(mem, info, w)
 
 (* Decode ticks [a, e) with the schema of write w (the pointer batch carries *)
 (* that schema): the IPC reader returns the first record batch of a complete  *)
 (* stream that starts at a, and ignores what follows.                         *)
-\*   result: "batch" (the batch of write x), "garbled" (bytes decode to something else / not at all)
-Decode(a, e, w) ==
+\*   result r: "batch" (the batch of write x) | "error"
+DecodeM(m, inf, a, e, w) ==
     IF a >= e \/ a < HdrT \/ (a - HdrT) % T # 0 THEN [r |-> "error", x |-> 0]
-    ELSE LET c == mem[UnitOf(a)] IN
+    ELSE LET c == m[UnitOf(a)] IN
          IF c[2] # 1 THEN [r |-> "error", x |-> 0]
          ELSE LET x == c[1] IN
-              IF /\ StreamAt(x) /\ info[x].off = UnitOf(a)
-                 /\ e >= a + T * info[x].len
-                 /\ Layout(info[x].sc) = Layout(info[w].sc)
-              THEN (IF Intact(info[x].sc) THEN [r |-> "batch", x |-> x] ELSE [r |-> "error", x |-> 0])
+              IF /\ StreamAtM(m, inf, x) /\ inf[x].off = UnitOf(a)
+                 /\ e >= a + T * inf[x].len
+                 /\ Layout(inf[x].sc) = Layout(inf[w].sc)
+              THEN (IF Intact(inf[x].sc) THEN [r |-> "batch", x |-> x] ELSE [r |-> "error", x |-> 0])
               ELSE [r |-> "error", x |-> 0]
 
 (* ReadBatch(offset, length, schema) on machine integers:                    *)
@@ -247,13 +248,21 @@ Decode(a, e, w) ==
 (*   region := data[offset:end]                 (traps when offset > end,     *)
 (*                                               or when end > len(data))     *)
 \*   result r: "batch" | "error" | "trap";  oob: the slice reached beyond the mapping
-ReadBatch(off, len, w) ==
+ReadBatchM(m, inf, off, len, w) ==
     LET end == (off + (len % M)) % M IN
     IF end > ST /\ "no_bounds_check" \notin Variant
     THEN [r |-> "error", x |-> 0, oob |-> FALSE]
     ELSE IF end > ST THEN [r |-> "trap", x |-> 0, oob |-> TRUE]
     ELSE IF off > end THEN [r |-> "trap", x |-> 0, oob |-> FALSE]
-    ELSE LET d == Decode(off, end, w) IN [r |-> d.r, x |-> d.x, oob |-> FALSE]
+    ELSE LET d == DecodeM(m, inf, off, end, w) IN [r |-> d.r, x |-> d.x, oob |-> FALSE]
+ReadBatch(off, len, w) == ReadBatchM(mem, info, off, len, w)
+
+\* what a reader of the peer attachment gets for write w with the (offset, length) the writer reported
+ReadBackObs(m, inf, w) ==
+    LET rb == ReadBatchM(m, inf, Abs(inf[w].off), T * inf[w].len, w) IN
+    [ok |-> rb.r = "batch",
+     schema_eq |-> rb.r = "batch" /\ inf[rb.x].sc = inf[w].sc,
+     values_eq |-> rb.r = "batch" /\ rb.x = w]
 
 (* ResolveShmBatch on a pointer batch: parse both strings, ReadBatch, then    *)
 (* rebuild the metadata; a trap below is recovered into an error.             *)
@@ -296,7 +305,9 @@ WriteBatch(sc, rw, md, n, ex) ==
                   exp |-> [fit |-> r.ok, woff |-> r.off, wlen |-> IF r.ok THEN n ELSE 0,
                            table |-> TableObs(r.table),
                            layout |-> IF r.ok THEN Layout(sc) ELSE "none",
-                           w |-> IF r.ok THEN w ELSE 0]])
+                           w |-> IF r.ok THEN w ELSE 0]
+                          \* the region just written, read through the peer attachment
+                          @@ (IF r.ok THEN ReadBackObs(mem', info', w) ELSE [nothing_written |-> TRUE])])
 
 (* MaybeWriteToShm(batch, seg): empty batches and batches below the size    *)
 (* gate stay on the pipe; otherwise AllocateAndWrite, and on success a       *)
@@ -326,20 +337,17 @@ MaybeWrite(sc, rw, md, n, ex, gate) ==
                                        ELSE [same_batch |-> TRUE],
                            table |-> TableObs(r.table),
                            layout |-> IF r.ok THEN Layout(sc) ELSE "none",
-                           w |-> IF r.ok THEN w ELSE 0]])
+                           w |-> IF r.ok THEN w ELSE 0]
+                          @@ (IF r.ok THEN ReadBackObs(mem', info', w) ELSE [nothing_written |-> TRUE])])
 
 (* ReadBatch(offset, length, schema) with the values AllocateAndWrite        *)
 (* returned, for a region that is still allocated.                           *)
 ReadBack(w) ==
     /\ Budget
     /\ Live(w)
-    /\ LET rb == ReadBatch(Abs(info[w].off), T * info[w].len, w) IN
-       /\ UNCHANGED <<table, mem, info>>
-       /\ Record([a |-> "ReadBack", args |-> [w |-> w],
-                  exp |-> [ok |-> rb.r = "batch",
-                           schema_eq |-> rb.r = "batch" /\ info[rb.x].sc = info[w].sc,
-                           values_eq |-> rb.r = "batch" /\ rb.x = w,
-                           layout |-> Layout(info[w].sc)]])
+    /\ UNCHANGED <<table, mem, info>>
+    /\ Record([a |-> "ReadBack", args |-> [w |-> w],
+               exp |-> ReadBackObs(mem, info, w) @@ [layout |-> Layout(info[w].sc)]])
 
 (* ResolveShmBatch(pointer, seg) for a pointer batch of class pc built for   *)
 (* write w (live or already freed).  Which keys the step carries follows     *)
@@ -437,7 +445,8 @@ PointsAt(p, w) == ~Malformed(p) /\ p.off.v = Abs(info[w].off) /\ p.len.v = T * i
 
 \* (1) any batch written to a segment reads back equal in schema and values
 ReadBackEqual ==
-    [][ Last.a = "ReadBack" => Last.exp.ok /\ Last.exp.schema_eq /\ Last.exp.values_eq ]_vars
+    [][ (Last.a = "ReadBack" \/ (Last.a \in {"WriteBatch", "MaybeWrite"} /\ Len(info') > Len(info))) =>
+            Last.exp.ok /\ Last.exp.schema_eq /\ Last.exp.values_eq ]_vars
 
 \* (2) a pointer batch resolves to that batch, pointer keys replaced by the source key
 PointerResolves ==
